@@ -119,7 +119,7 @@ type c33Case struct {
 func init() { register("c33", runC33) }
 
 func runC33(args []string) {
-	f := verifx.ParseFlags("c33", args, 400, 4000)
+	f := verifx.ParseFlags("c33", args, 300, 4000)
 	out := verifx.NewOut()
 	ctx := context.Background()
 	P := newC33Twin(filepath.Join(f.Scratch, "c33-p"))
